@@ -49,3 +49,11 @@ package connected
 //@       0 <= edgePos(sub.Edges[k]) && edgePos(sub.Edges[k]) < b && g.Edges[edgePos(sub.Edges[k])] == sub.Edges[k] && es[sub.Edges[k]]
 //@     invariant forall i int :: 0 <= i && i < b && es[g.Edges[i]] ==> (exists k int :: 0 <= k && k < len(sub.Edges) && sub.Edges[k] == g.Edges[i])
 //@     invariant forall k int, m int :: 0 <= k && m == k + 1 && m < len(sub.Edges) ==> edgePos(sub.Edges[k]) < edgePos(sub.Edges[m])
+
+// Components: safe for a non-empty graph (Layout panics with a message of its own on an empty node list before it
+// gets here). The numbering is the ghost one of subgraph: it exists whenever the lists hold no duplicates.
+//@ func Components
+//@   requires[|C01] g != nil && len(g.Nodes) >= 1
+//@   requires[numbered|C01] (forall i int :: 0 <= i && i < len(g.Nodes) ==> nodePos(g.Nodes[i]) == i) && (forall i int :: 0 <= i && i < len(g.Edges) ==> edgePos(g.Edges[i]) == i)
+//@   loop range(g.Nodes)#1 index i
+//@     invariant[numbered|C01] (forall j int :: 0 <= j && j < len(g.Nodes) ==> nodePos(g.Nodes[j]) == j) && (forall j int :: 0 <= j && j < len(g.Edges) ==> edgePos(g.Edges[j]) == j)
